@@ -256,6 +256,18 @@ class Recorder:
         size, case, msg = min(self.failures, key=lambda f: f[0])
         return case, msg
 
+    def smallest_failures(self, k=5):
+        seen, out = set(), []
+        for size, case, msg in sorted(self.failures, key=lambda f: f[0]):
+            c = canon(case)
+            if c in seen:
+                continue
+            seen.add(c)
+            out.append((case, msg))
+            if len(out) >= k:
+                break
+        return out
+
     def result(self, shard):
         return {
             "sub": self.sub.name, "shard": shard, "kind": self.sub.kind(),
@@ -263,6 +275,7 @@ class Recorder:
             "nt": self.nt, "labels": dict(self.labels),
             "samples": list(self.samples.values()),
             "failure": self.minimal_failure(),
+            "failures": self.smallest_failures(),
             "nfailing": len(self.failures),
             "known_hits": dict(self.known_hits),
             "status": self.status, "wall_s": round(time.time() - self.t0, 2),
@@ -617,17 +630,16 @@ def run_property(module, tier, base_seed, build_info, nproc=None,
                                + " before any case"))
         elif r["failure"] is not None:
             s["status"] = "violation"
-            case, msg = r["failure"]
-            violations.append((r["sub"], case, msg))
+            for case, msg in r.get("failures") or [r["failure"]]:
+                violations.append((r["sub"], case, msg))
         elif r["status"] == "inconclusive" and s["status"] == "ok":
             s["status"] = "inconclusive"
 
-    # one violation line per sub-check (smallest case)
-    best = {}
+    # one violation line per sub-check: the smallest failing case that
+    # reproduces outside Hypothesis, in a fresh process
+    cands = {}
     for subname, case, msg in violations:
-        k = len(canon(case))
-        if subname not in best or k < best[subname][0]:
-            best[subname] = (k, case, msg)
+        cands.setdefault(subname, []).append((len(canon(case)), case, msg))
 
     # listed known findings are announced on every run
     if KNOWN_FILE.exists():
@@ -637,18 +649,28 @@ def run_property(module, tier, base_seed, build_info, nproc=None,
                       f" (seen {known_lines.get(f['what'], 0)}x this run)")
 
     nviol = 0
-    for subname, (k, case, msg) in sorted(best.items()):
-        # confirm outside Hypothesis before reporting
-        try:
-            confirmed = replay_isolated(module, subname, case)
-        except Exception as e:
-            confirmed = None
-            errors.append((subname, f"replay raised {e!r}"))
+    for subname, lst in sorted(cands.items()):
+        lst.sort(key=lambda c: c[0])
+        confirmed, case, msg = None, None, ""
+        tried = set()
+        for k, case, msg in lst:
+            if canon(case) in tried or len(tried) >= 12:
+                continue
+            tried.add(canon(case))
+            try:
+                confirmed = replay_isolated(module, subname, case)
+            except Exception as e:
+                confirmed = None
+                errors.append((subname, f"replay raised {e!r}"))
+            if confirmed is not None:
+                break
         if confirmed is None:
-            # could not be reproduced from the saved input: not reported as
-            # a violation (state leak / flakiness is a harness matter)
-            errors.append((subname, "failure did not reproduce on replay: "
-                           + msg[:300]))
+            # nothing reproduced from the saved inputs: not reported as a
+            # violation (state leak / flakiness is a harness matter)
+            errors.append((subname, f"{len(tried)} failing case(s) did not "
+                           "reproduce on replay: " + msg[:300]))
+            per_sub[subname]["status"] = "error" if subname in per_sub \
+                else "error"
             continue
         path = write_replay(prop, subname, case, confirmed)
         nviol += 1
